@@ -493,6 +493,26 @@ def run_hidden_dep(p: Project, clause: str, floor: int) -> RuleResult:
             if not skippable:
                 continue
             good = [x for n, x in deps if n in skip_reach and any(isinstance(a, ast.Attribute) and isinstance(a.value, ast.Name) and a.value.id == sn and a.attr == src for a in ast.walk(ast.parse(ast.unparse(du.expand(x.args[0], n)), mode="eval")))]
+            # a declaration that names the collection but leaves some of its members out (a comprehension with a
+            # filter, a zip with a shorter list) misses exactly the hidden ones
+            partial = []
+            for x in good:
+                arg = x.args[0]
+                for comp in [c for c in ast.walk(arg) if isinstance(c, (ast.ListComp, ast.GeneratorExp, ast.SetComp))]:
+                    for g in comp.generators:
+                        mentions = any(isinstance(a, ast.Attribute) and isinstance(a.value, ast.Name) and a.value.id == sn and a.attr == src for a in ast.walk(g.iter))
+                        if not mentions:
+                            continue
+                        zipped = isinstance(g.iter, ast.Call) and isinstance(g.iter.func, ast.Name) and g.iter.func.id == "zip"
+                        # `if w is not None` only leaves out parts that do not exist
+                        ifs = [t for t in g.ifs if not (isinstance(t, ast.Compare) and len(t.ops) == 1 and isinstance(t.ops[0], ast.IsNot) and isinstance(t.comparators[0], ast.Constant) and t.comparators[0].value is None)]
+                        if ifs or zipped:
+                            partial.append((x, "a filter" if ifs else "zip() with another list"))
+            for x, why in partial:
+                rr.add(finding("HIDDEN-DEP", fi, x, f"`{norm(x, 70)}` declares the dependencies through {why}: the children that are left out are the ones without room - the hidden ones the declaration exists for - so when one of them changes (an empty status Text gets text) the cached canvas is not invalidated", construct=f"set_depends leaves out members of {src}"))
+            good = [x for x in good if x not in [y for y, _ in partial]]
+            if partial and not good:
+                continue
             if not good:
                 rr.add(finding("HIDDEN-DEP", fi, call0, f"render() can finish without `{norm(call0, 50)}` (the child from {sn}.{src} is given no room and skipped) and no set_depends() naming {sn}.{src} follows: the hidden child was consulted for the layout but is not a dependency of the cached canvas, so when it changes (gains rows / columns) this widget and its ancestors keep serving the canvas without it", construct=f"child from {src} can be skipped without set_depends"))
                 continue
